@@ -303,7 +303,14 @@ pub fn init_from_file(config_path: &Path) -> Result<InitResult> {
     });
   }
 
-  let processor = Arc::new(EventProcessor::new(actors, error_tx_channel));
+  let processor = Arc::new(
+    EventProcessor::new(actors, error_tx_channel).with_loggers(
+      internal_config
+        .loggers
+        .values()
+        .map(|l| (l.name.clone(), l.additive)),
+    ),
+  );
   let max_level = processor.max_level();
 
   let dispatch_layer = DispatchLayer::new(Arc::clone(&processor));
